@@ -9,7 +9,7 @@ See DESIGN.md section 3, C08.
 import ast
 
 from ..core import Rule
-from ..model import AnalysisError, dotted, unparse, short
+from ..model import AnalysisError, dotted, unparse, short, itext
 from ..cfg import cfg_of, calls_in_order
 from ..terms import fn_terms, walk, show
 from ..schemes import discover
@@ -291,7 +291,7 @@ def _check_cross(repo, r3):
     pc = repo.func("schemes/CJJ14/Pi2Lev/config.py", "Pi2LevConfig._parse_config")
     g = None
     for st, exc in raising_ifs(pc):
-        t = unparse(st.test)
+        t = itext(pc, st.test)
         if exc == "ValueError" and "param_index_size_of_A" in t and "param_b_prime" in t and "param_b " in t + " " and "!=" in t:
             g = st
     r3.require(g is not None, pc, "Pi2Lev index-width equality",
@@ -327,7 +327,7 @@ def _check_cross(repo, r3):
     pf = repo.func("toolkit/database_utils.py", "partition_identifiers_to_blocks")
     g4 = None
     for st, exc in raising_ifs(pf):
-        t = unparse(st.test)
+        t = itext(pf, st.test)
         if exc == "ValueError" and "block_size_bytes" in t and "<" in t and "entry_count_in_one_block" in t and "identifier_size" in t:
             g4 = st
     if r3.require(g4 is not None, pf, "partition block-size check", "partition_identifiers_to_blocks no longer refuses a block smaller than its entries"):
@@ -338,7 +338,7 @@ def _check_cross(repo, r3):
     sf = repo.func("toolkit/bytes_utils.py", "split_bytes_given_slice_len")
     g5 = None
     for st, exc in raising_ifs(sf):
-        t = unparse(st.test)
+        t = itext(sf, st.test)
         if exc == "ValueError" and "len(xbytes)" in t and "sum(" in t and "!=" in t:
             g5 = st
     if r3.require(g5 is not None, sf, "split total-length check", "split_bytes_given_slice_len no longer refuses a length mismatch"):
@@ -349,7 +349,7 @@ def _check_cross(repo, r3):
     bi = repo.func("toolkit/bits.py", "Bitset.__init__")
     g6 = None
     for st, exc in raising_ifs(bi):
-        t = unparse(st.test)
+        t = itext(bi, st.test)
         if exc == "ValueError" and "bit_length()" in t and "length" in t and ">" in t:
             g6 = st
     if r3.require(g6 is not None, bi, "Bitset value-fits-length check", "Bitset.__init__ no longer refuses a value wider than the explicit length (over-long keywords/counters would be truncated silently)"):
